@@ -437,6 +437,20 @@ func CheckC17(r *Report) {
 
 func init() {
 	replayers["alloc"] = func(c *Case) string {
-		return "allocation cases are re-measured by re-running the check (./run.sh C17 quick); case: " + fmt.Sprint(c.Args)
+		// allocation cases are re-measured by re-running the measurement workers; the case reproduces when the
+		// same (version, call, allocation count) is over budget again
+		tmp := NewReport(c.Property, "quick", 0)
+		CheckC17(tmp)
+		tmp.mu.Lock()
+		defer tmp.mu.Unlock()
+		for _, v := range tmp.violations {
+			if v.Key == c.Key {
+				return v.Observed
+			}
+		}
+		if len(tmp.violations) > 0 {
+			return "a different allocation case is over budget now: " + tmp.violations[0].Key + " " + tmp.violations[0].Observed
+		}
+		return ""
 	}
 }
